@@ -948,7 +948,8 @@ class WkScenario:
     def decrypt(self, c, k, expect="-"): self.L.append("wk_decrypt %d %d %s" % (c, k, expect))
     def decryptm(self, c, m): self.L.append("wk_decryptm %d %d" % (c, m))
     def sign(self, p, k, attrs, msg, pre=None, nullattrs=False, first=None):
-        st = self.stream(400) if first is None else (first.to_bytes(32, "little").hex() + self.stream(368))
+        # `first`: the signing exponent to be drawn (random_zpstar draws the four base-|x| digits of s, least significant first)
+        st = self.stream(400) if first is None else xdigit_stream(first, self.rng, tail=368).hex()
         if pre is None: self.L.append("wk_sign %d %d 0 %s %s %s" % (p, k, self.spec(attrs), hx(msg, 256), st))
         else: self.L.append("wk_signpre %d %d 0 %s %d %d %s %s" % (p, k, self.spec(attrs), pre, 1 if nullattrs else 0, hx(msg, 256), st))
         self.nS += 1; return self.nS - 1
@@ -1182,8 +1183,19 @@ def gen_wkdibe(rng, n, tier):
     knd_ = S.key("wk_ndkeygen", p0, m0, full_, random=False)
     for s_first in (R - 1, 1, R - 2):
         for msg_ in (5, R - 1):
-            sg_ = S.sign(p0, knd_, full_, msg_, first=s_first); S.verify(p0, full_, sg_, msg_); S.verify(p0, full_, sg_, msg_ + 1)
+            sg_ = S.sign(p0, knd_, full_, msg_, first=s_first); S.verify(p0, full_, sg_, msg_)
+            # (with s = r - 1 the signature is (g2^alpha, identity), which satisfies the verification equation for EVERY message and list -
+            # a property of the scheme, of probability 2^-255 with honest randomness: no "must reject" expectation is attached to it)
+            if s_first != R - 1: S.verify(p0, full_, sg_, msg_ + 1)
             rp_ = S.pre(p0, full_); S.verify(p0, None, sg_, msg_, pre=rp_)
+    # a list entry that fills a slot FREE in the signing key, carries the omit-from-keys flag and a non-zero identifier: the flag shapes
+    # keys only - the signature must bind the entry (verify counts it)
+    for (k, pat) in [kp for kp in klist if "f" in kp[1]][:3]:
+        fixed = [(i, vals[i], False) for i, ch in enumerate(pat) if ch == "x"]
+        i0 = pat.index("f"); v0 = vals[i0] if vals[i0] % R != 0 else 9
+        flagged_fill = sorted(fixed + [(i0, v0, True)]); plain_fill = sorted(fixed + [(i0, v0, False)])
+        msg_ = rng.choice([1, 7, R - 1])
+        sf_ = S.sign(p0, k, flagged_fill, msg_); S.verify(p0, flagged_fill, sf_, msg_); S.verify(p0, plain_fill, sf_, msg_); S.verify(p0, fixed, sf_, msg_)
     # signatures
     for (k, pat) in klist[: (4 if tier != "thorough" else 20)]:
         fixed = [(i, vals[i], False) for i, ch in enumerate(pat) if ch == "x"]
